@@ -328,6 +328,8 @@ def work_c15(prop, tier, seed, widx, nworkers):
                 for _, m in n.get('params', []):
                     if m[0] == 'sw' and rng.random() < 0.7:
                         m[1] = None
+        if rng.random() < 0.25:
+            add_second_rec(prog, rng)
         prog['tags'] = sorted(gen.analyze(prog))
         case = {'prog': prog, 'what': 'build'}
         fs = replay_case(case, rng=rng)
@@ -488,6 +490,30 @@ def add_dest_reader(prog, rng):
         out['params'].append(['zr', ['in', m[2]]])
 
 
+def add_second_rec(prog, rng):
+    """A second recurrent subgraph that shares its START node with an existing one but has its own destination
+    (consumed by the output node or by the consumer of the first one)."""
+    recs = [(nid, m) for nid in prog['order'] if nid in gen.reachable(prog)
+            for _, m in prog['nodes'][nid].get('params', []) if m[0] == 'rec']
+    if not recs:
+        return
+    nid, m = rng.choice(recs)
+    start = m[1]
+    host = prog['nodes'][rng.choice([nid, prog['output']])]
+    if host.get('generic_of') or host.get('generic_base') or any(pn == 'zq' for pn, _ in host['params']):
+        return
+    k = 0
+    while f'Q{k}' in prog['nodes']:
+        k += 1
+    did = f'Q{k}'
+    prog['nodes'][did] = {'id': did, 'mode': rng.choice(['async', 'thread', 'inline']), 'kind': 'dest', 'recurrent': True,
+                          'params': [['a', ['in', start]]], 'plan': {'start': start, 'want_iter': 0}}
+    at = min(prog['order'].index(host['id']), len(prog['order']))
+    prog['order'].insert(at, did)
+    pos = rng.randint(0, len(host['params']))
+    host['params'].insert(pos, ['zq', ['rec', start, did, rng.randint(1, 3)]])
+
+
 def reach_kind(prog, nid):
     """Through which mark kinds is nid reached (for evidence: defect placement coverage)."""
     cons = gen.consumers(prog)
@@ -536,6 +562,8 @@ def work_c16(prop, tier, seed, widx, nworkers):
         prog = decorate(base, rng) if rng.random() < 0.5 else base
         if rng.random() < 0.5:
             add_dest_reader(prog, rng)
+        if rng.random() < 0.4:
+            add_second_rec(prog, rng)
         prog['tags'] = sorted(gen.analyze(prog))
         acc.programs += 1
         # valid direction
